@@ -1,2 +1,214 @@
-(** C08 - statements are added once the proofs exist (work in progress). *)
-From Verif Require Import Lib.Base Deb822.Model Deb822.Spec Deb822.InjectSpec.
+(** C08 — An accepted field value can never inject fields or split the paragraph.
+    Only statements; every proof is [exact <lemma>] or a short composition
+    (lemmas in Deb822/InjectStr.v, InjectBrk.v, InjectProofs.v, InjectProofs2.v,
+    InjectProofs3.v).
+
+    Model: Deb822/Model.v — the functions [agree] of Deb822/InjectCheck.v runs:
+    [setitem] (= [validate_input] then [dict_set]), [dump], [iter_paragraphs].
+    Spec: Deb822/Spec.v + Deb822/InjectSpec.v — what [holds] uses: [c08_dom] (the
+    property's alphabet: anything except the characters Python treats as white
+    space or line boundary other than SP TAB CR LF), [spec_rejects] (the three
+    rejection reasons, written with norm_eol/split_on, not splitlines),
+    [no_blank_cont], [para_dom] (names non-empty, without ':' / Python whitespace /
+    Python line boundaries, not starting with '#', pairwise distinct ignoring
+    case; values in the alphabet), [one_para_with_names].
+
+    [reread_para d] is the paragraph with every value replaced by
+    [reread_value v]: first line trimmed, CR / CRLF line ends normalised to LF,
+    continuation lines consisting of one single blank dropped — so the theorems
+    give the values read back too, not only the names.  [reread_para_file d] is
+    the same for a file object, which cuts lines at LF only: a CR inside a line
+    stays (CR / LF at the end of a line are removed). *)
+From Coq Require Import String.
+From Verif Require Import Lib.Base Lib.Dec Lib.PyStr Gen.PyChars
+  Deb822.Model Deb822.Spec Deb822.InjectSpec Deb822.InjectStr Deb822.InjectBrk Deb822.InjectProofs
+  Deb822.InjectProofs2 Deb822.InjectProofs3 Deb822.InjectCheck.
+
+(** 1. accepted_value_safe_ws_false: a non-empty paragraph over the domain, all
+       of whose values validate_input accepts, dumped and read back with
+       whitespace-separates-paragraphs = False, is exactly one paragraph with
+       the same names in the same order (and the values [reread_value] gives). *)
+Theorem C08_accepted_value_safe_ws_false :
+  forall d,
+    para_dom d = true ->
+    forallb (fun kv => is_ok (validate_input (snd kv))) d = true ->
+    d <> [] ->
+    iter_paragraphs CDeb822 false (InStr (dump d)) = Ok [reread_para d]
+    /\ keys (reread_para d) = keys d.
+Proof.
+  intros d Hd Ha Hne. split; [|exact (names_reread d)].
+  apply reread_instr; [exact Hd|exact Ha|exact Hne|discriminate].
+Qed.
+
+(** 2. accepted_value_safe_default: the same with the default strictness
+       (whitespace-only lines end a paragraph) provided no continuation line of
+       any value is whitespace-only. *)
+Theorem C08_accepted_value_safe_default :
+  forall d,
+    para_dom d = true ->
+    forallb (fun kv => is_ok (validate_input (snd kv))) d = true ->
+    d <> [] ->
+    para_no_blank_cont d = true ->
+    iter_paragraphs CDeb822 true (InStr (dump d)) = Ok [reread_para d]
+    /\ keys (reread_para d) = keys d.
+Proof.
+  intros d Hd Ha Hne Hb. split; [|exact (names_reread d)].
+  apply reread_instr; [exact Hd|exact Ha|exact Hne|intros _; exact Hb].
+Qed.
+
+(** 1f / 2f. The same when the dump is read back through a file object
+       (io.StringIO: lines end at LF only). *)
+Theorem C08_accepted_value_safe_ws_false_file :
+  forall d,
+    para_dom d = true ->
+    forallb (fun kv => is_ok (validate_input (snd kv))) d = true ->
+    d <> [] ->
+    iter_paragraphs CDeb822 false (InFile (dump d)) = Ok [reread_para_file d]
+    /\ keys (reread_para_file d) = keys d.
+Proof.
+  intros d Hd Ha Hne. split; [|exact (names_reread_file d)].
+  apply reread_infile; [exact Hd|exact Ha|exact Hne|discriminate].
+Qed.
+
+Theorem C08_accepted_value_safe_default_file :
+  forall d,
+    para_dom d = true ->
+    forallb (fun kv => is_ok (validate_input (snd kv))) d = true ->
+    d <> [] ->
+    para_no_blank_cont d = true ->
+    iter_paragraphs CDeb822 true (InFile (dump d)) = Ok [reread_para_file d]
+    /\ keys (reread_para_file d) = keys d.
+Proof.
+  intros d Hd Ha Hne Hb. split; [|exact (names_reread_file d)].
+  apply reread_infile; [exact Hd|exact Ha|exact Hne|intros _; exact Hb].
+Qed.
+
+(** 3. The property as [holds] phrases it, for an assignment: if p[k] = v is
+       accepted on a paragraph of the domain, the mapping afterwards is the
+       association list of the Spec, and its dump reads back - as str and as file
+       object - as one paragraph with exactly its names: under ws=False always,
+       under the default when no continuation line is blank. *)
+Theorem C08_setitem_accepted_safe :
+  forall d k v d',
+    para_dom d = true ->
+    forallb (fun kv => is_ok (validate_input (snd kv))) d = true ->
+    valid_field_name k = true -> c08_dom v = true ->
+    setitem d k v = Ok d' ->
+    d' = spec_set d k v
+    /\ one_para_with_names (names d') (iter_paragraphs CDeb822 false (InStr (dump d'))) = true
+    /\ one_para_with_names (names d') (iter_paragraphs CDeb822 false (InFile (dump d'))) = true
+    /\ (para_no_blank_cont d' = true ->
+        one_para_with_names (names d') (iter_paragraphs CDeb822 true (InStr (dump d'))) = true
+        /\ one_para_with_names (names d') (iter_paragraphs CDeb822 true (InFile (dump d'))) = true).
+Proof.
+  intros d k v d' Hd Ha Hk Hv Hs.
+  destruct (setitem_keeps_dom d k v d' Hd Ha Hk Hv Hs) as (Hd' & Ha' & Hne).
+  split.
+  { unfold setitem in Hs. destruct (validate_input v); [|discriminate]. now injection Hs as <-. }
+  assert (E1 : forall d0, names d0 = names d' ->
+               one_para_with_names (names d') (Ok [d0]) = true).
+  { intros d0 E. cbn [one_para_with_names]. rewrite E. now apply strs_eqb_eq. }
+  split; [|split].
+  - rewrite (reread_instr false d' Hd' Ha' Hne) by discriminate. apply E1, names_reread.
+  - rewrite (reread_infile false d' Hd' Ha' Hne) by discriminate. apply E1, names_reread_file.
+  - intros Hb. split.
+    + rewrite (reread_instr true d' Hd' Ha' Hne (fun _ => Hb)). apply E1, names_reread.
+    + rewrite (reread_infile true d' Hd' Ha' Hne (fun _ => Hb)). apply E1, names_reread_file.
+Qed.
+
+(** 4. rejected_unchanged: a value that ends in LF, has an empty continuation
+       line, or a continuation line not starting with space/tab is refused with
+       ValueError by validate_input and by __setitem__, and the step the check
+       runs leaves the mapping as it was. *)
+Theorem C08_rejected_unchanged :
+  forall d k v,
+    c08_dom v = true -> spec_rejects v = true ->
+    validate_input v = Err ValueError
+    /\ setitem d k v = Err ValueError
+    /\ model_step d (k, v) = (Some ValueError, d).
+Proof.
+  intros d k v Hd Hr. destruct (rejected_valueerror d k v Hd Hr) as [H1 H2].
+  repeat split; try assumption. unfold model_step. cbn [fst snd]. now rewrite H2.
+Qed.
+
+(** 4'. ... and nothing else is refused: over the alphabet, validate_input is
+        exactly the Spec's three reasons; an accepted assignment yields the
+        Spec's association list. *)
+Theorem C08_validate_input_spec :
+  forall v, c08_dom v = true ->
+    validate_input v = if spec_rejects v then Err ValueError else Ok tt.
+Proof. exact validate_input_spec. Qed.
+
+Theorem C08_accepted_is_spec_set :
+  forall d k v, c08_dom v = true -> spec_rejects v = false ->
+    setitem d k v = Ok (spec_set d k v).
+Proof. exact accepted_ok. Qed.
+
+(** 5. validator_matches_parser: a line the validator accepts as continuation
+       line (first character whitespace, in the alphabet) matches neither
+       _single nor _multi nor the PGP armour pattern. *)
+Theorem C08_validator_matches_parser :
+  forall l,
+    c08_dom l = true -> check_cont_lines [l] = Ok tt -> no_linebreak l = true ->
+    match_single l = None /\ match_multi l = None /\ match_gpgre l = None.
+Proof. exact validator_matches_parser. Qed.
+
+Theorem C08_validator_matches_parser_value :
+  forall v l,
+    c08_dom v = true -> validate_input v = Ok tt ->
+    In l (tl (splitlines py_islinebreak false v)) ->
+    match_single l = None /\ match_multi l = None /\ match_gpgre l = None.
+Proof. exact validator_matches_parser_value. Qed.
+
+(** 6. The Spec's continuation lines (norm_eol / split_on LF) are the lines the
+       validator looks at (str.splitlines()[1:]) for every value of the alphabet. *)
+Theorem C08_cont_lines_are_splitlines :
+  forall v, c08_dom v = true -> cont_lines v = tl (splitlines py_islinebreak false v).
+Proof. exact cont_lines_vlines. Qed.
+
+(** Non-vacuity: a paragraph with a multi-line value containing a colon line,
+    a CR LF, a CR, a '#' line, a PGP armour line and a whitespace-only line meets
+    the hypotheses of 1; it does not meet the extra hypothesis of 2, and the
+    default strictness indeed splits it in two. *)
+Local Open Scope string_scope.
+Definition ex_para : dict :=
+  [(dec "Package", dec "foo");
+   (dec "Description", dec "short \00000a long: x\00000d y\00000d\00000a .\00000d\00000a #c\00000a \00000a -----BEGIN PGP SIGNATURE-----");
+   (dec "-----BEGIN", dec "")].
+
+Example C08_nonvacuous :
+  para_dom ex_para = true
+  /\ forallb (fun kv => is_ok (validate_input (snd kv))) ex_para = true
+  /\ ex_para <> []
+  /\ iter_paragraphs CDeb822 false (InStr (dump ex_para)) = Ok [reread_para ex_para]
+  /\ iter_paragraphs CDeb822 false (InFile (dump ex_para)) = Ok [reread_para_file ex_para]
+  /\ reread_para ex_para <> reread_para_file ex_para
+  /\ para_no_blank_cont ex_para = false
+  /\ (match iter_paragraphs CDeb822 true (InStr (dump ex_para)) with Ok [_; _] => true | _ => false end) = true.
+Proof. vm_compute. repeat split; discriminate. Qed.
+
+Example C08_nonvacuous_default :
+  let d := [(dec "A", dec "x\00000a y\00000d\00000a\000009z"); (dec "b", dec "\00000d w")] in
+  para_dom d = true
+  /\ forallb (fun kv => is_ok (validate_input (snd kv))) d = true
+  /\ para_no_blank_cont d = true
+  /\ iter_paragraphs CDeb822 true (InStr (dump d)) = Ok [reread_para d].
+Proof. vm_compute. repeat split. Qed.
+
+Example C08_nonvacuous_rejected :
+  c08_dom (dec "1.0\00000aInjected: yes") = true /\ spec_rejects (dec "1.0\00000aInjected: yes") = true
+  /\ spec_rejects (dec "1.0\00000a\00000aPackage: evil") = true
+  /\ spec_rejects (dec "x\00000a") = true.
+Proof. vm_compute. repeat split. Qed.
+
+Print Assumptions C08_accepted_value_safe_ws_false.
+Print Assumptions C08_accepted_value_safe_default.
+Print Assumptions C08_accepted_value_safe_ws_false_file.
+Print Assumptions C08_accepted_value_safe_default_file.
+Print Assumptions C08_setitem_accepted_safe.
+Print Assumptions C08_rejected_unchanged.
+Print Assumptions C08_validate_input_spec.
+Print Assumptions C08_accepted_is_spec_set.
+Print Assumptions C08_validator_matches_parser.
+Print Assumptions C08_validator_matches_parser_value.
+Print Assumptions C08_cont_lines_are_splitlines.
